@@ -226,6 +226,11 @@ pub enum LogEv {
         stdout: String,
         stderr: String,
         detached: bool,
+        /// did the directories the child is pointed at exist when it was started?
+        #[serde(default)]
+        cwd_exists: bool,
+        #[serde(default)]
+        tmpdir_exists: bool,
     },
     SpawnFailed {
         nth: u32,
